@@ -288,6 +288,36 @@ def builtin_suffix_rule():
     return bad
 
 
+def index_generation():
+    """finite: the real codegen.generate_index.build_index() run on the shipped schema package lists exactly
+    the modules and API keys an independent package walk finds.  -> list of problems"""
+    from codegen.generate_index import build_index
+
+    from .c09 import key_names, truth
+
+    bad = []
+    try:
+        name_map, key_map = build_index()
+    except Exception as e:
+        return [f"build_index raised {type(e).__name__}: {e}"]
+    T = truth()
+    got = {(n, int(v), et.name) for n, vm in name_map.items() for v, tm in vm.items() for et in tm}
+    want = set(T)
+    if got != want:
+        bad.append(f"schema_name_map differs from the package walk: missing {sorted(want - got)[:3]} extra {sorted(got - want)[:3]}")
+    kn = {k: sorted(v)[0] for k, v in key_names().items()}
+    if dict(key_map) != kn:
+        miss = {k: v for k, v in kn.items() if key_map.get(k) != v}
+        bad.append(f"api_key_map differs from the payload classes: {dict(list(miss.items())[:3])} (generated {len(key_map)} keys, walk finds {len(kn)})")
+    for (n, v, t), (mod, cls) in list(T.items()):
+        path = name_map.get(n, {}).get(v, {})
+        p = {et.name: s for et, s in path.items()}.get(t)
+        if p is not None and p != f"{mod.__name__}:{cls.__qualname__}":
+            bad.append(f"index path {p} is not {mod.__name__}:{cls.__qualname__}")
+            break
+    return bad
+
+
 def task_snake(L):
     st = Stats()
     explore(SnakeCase(L), max_paths=6000, stats=st, deadline=time.time() + 240)
@@ -323,11 +353,15 @@ def check(tier):
     total.clauses["builtin_names_get_an_underscore_suffix"] = [1, 0 if bad else 1]
     if bad:
         cex.append({"clause": "builtin_names_get_an_underscore_suffix", "witness": {"snake_builtin": bad[0]}, "info": {}})
+    ibad = index_generation()
+    total.clauses["generated_index_lists_exactly_the_schema_modules_and_api_keys"] = [1, 0 if ibad else 1]
+    if ibad:
+        cex.append({"clause": "generated_index_lists_exactly_the_schema_modules_and_api_keys", "witness": {"index_generation": ibad[0]}, "info": {}})
     if total.unsupported:
         inconclusive.append(f"{total.unsupported} path(s) could not be followed: {list(total.unsupported_msgs.items())[:4]}")
     cov = runner.mc_coverage(
         total, functions=["codegen.versions.VersionRange.matches", "codegen.parser._BaseField.get_tag/is_nullable_for_version", "codegen.parser.PrimitiveField.is_nullable",
-                          "codegen.generate_schema.filter_version_fields", "codegen.case.to_snake_case"],
+                          "codegen.generate_schema.filter_version_fields", "codegen.case.to_snake_case", "codegen.generate_index.build_index (concrete run on the shipped package, compared with a package walk)"],
         bounds={"versions_and_range_bounds": "[-2^31, 2^31]", "range_spellings": ["N-M", "N+", "none"], "primitives": "all members of codegen.parser.Primitive",
                 "filter_version_fields": "3 fields", "to_snake_case": "lengths %s; each character's class (upper/lower/digit/other) symbolic" % lengths},
         outside=["pydantic parsing of JSON definitions", "default formatting, type-hint emission, dataclass decorator text", "common-struct resolution, index generation, file output",
